@@ -233,3 +233,5 @@ pub mod io;
 pub mod metropolis_hastings;
 pub mod nuts;
 pub mod stats;
+#[cfg(feature = "verif-hooks")]
+pub mod verif_hooks;
